@@ -594,4 +594,163 @@ def register(w):
         ("base_first_chain_value_is_the_transposed_source", law("base")),
         ("step_pointwise_operators_with_scalar_side_operands_commute_with_transpose", law("step")),
         ("conclusion_inverse_transpose_of_the_last_chain_value_is_the_chain_on_the_source", law("end"))]))
+    register_orphans(w)
+
+    # ---- bounded stand-in for the transactions that are not under contract (T4-T7): labelled bounded, never counted as proved
+    def bounded_dag(world, c, out):
+        import time
+        from pyvc.run import run_witness
+        t0 = time.time()
+        holds, detail = run_witness("C02_transpose_dag_family", timeout=1800)
+        target = f"{MO}:remove_redundant_transpose_pairs_ir+remove_redundant_transpose_add_forests_ir"
+        d = {"oid": f"{target}#bounded:T4-T7_change_no_output_and_leave_no_false_declaration", "kind": "bounded", "status": "discharged" if holds else ("refuted" if holds is False else "unknown"), "backend": "enumerated",
+             "time": time.time() - t0, "instances": 1, "trivial": 0,
+             "bounded": "16 DAG shapes (chains of <= 3 unary ops, binary joins of <= 3 transposed sources, Add chains/forests with fan-out, scalar and full constants) x 5 permutation pairs of rank 3/4 with pairwise different extents x 5 observation variants x 3 pass orders; every graph output and every declared value_info compared with onnxruntime",
+             "note": f"T4 (Add forests), T5 (Add chains), T6 (elementwise DAGs), T7 (chains between one pair) are not under contract: the real passes are run on an enumerated family of graphs; {detail}"[:700]}
+        if holds is False:
+            d.update(args={"witness": "C02_transpose_dag_family"}, replay={"reproduced": True, "detail": detail}, formula="", model=detail)
+        out["obls"].append(d)
+        out["paths"], out["time"] = 1, time.time() - t0
+        return out
+    w.add_contract(Contract(f"{MO}:<bounded-T4-T7>", kind="custom", custom=bounded_dag, props=["C02", "C08", "C12"], witnesses=["C02_transpose_dag_family"]))
     w.trust("A2/A3 a pointwise operator whose other operands are broadcast scalars commutes with Transpose; a node whose op_type is in ALLOWED_ELEMWISE denotes the ONNX operator of that name (custom-domain nodes emitted by jax2onnx are functions named <Name>_<n> or contrib operators with the same pointwise meaning)")
+
+
+# =====================================================================
+# T15  remove_orphan_transposes_ir:  a Transpose none of whose outputs is read, listed as graph output or captured   ==>   removed
+# =====================================================================
+def register_orphans(w):
+    sel = z3.Select
+    N, V = ref_sort(NODE), ref_sort(VALUE)
+    nested_ref = w.c02_preds["nested_ref"]
+    observed_as_output = w.c02_observed_as_output
+    hv = w.graph_hv
+    w.global_overrides[(MO, "DCE_DEBUG")] = VBool(z3.BoolVal(False))
+
+    def name_of(ex, v):
+        na = ex.heap_arrays(VALUE, "name")
+        return sel(na[0], v), sel(na[1], v)
+
+    def named(ex, v):
+        isnone, nm = name_of(ex, v)
+        return z3.And(z3.Not(isnone), z3.Length(nm) > 0)
+
+    def in_seq(seq, x):
+        k = z3.Int("k!os")
+        return z3.Exists([k], z3.And(0 <= k, k < seq.length, sel(seq.arrs[0], k) == x))
+
+    def reads_name(ex, n, nm):
+        """node n has an input whose (non-empty) name is nm"""
+        ins = ex.heap_arrays(NODE, "inputs")
+        i = z3.Int("i!rn")
+        x = sel(sel(ins[0], n), i)
+        isnone, xn = name_of(ex, x)
+        return z3.Exists([i], z3.And(0 <= i, i < sel(ins[1], n), x != null_of(VALUE), z3.Not(isnone), z3.Length(xn) > 0, xn == nm))
+
+    # _has_named_consumer(nodes, producer=, output_name=): False only if no other node of `nodes` reads a value of that name
+    def post_hnc(c: Ctx):
+        ex = c.ex
+        n = z3.Const("n!hn", N)
+        return z3.Implies(z3.Not(c.result.term), z3.ForAll([n], z3.Implies(z3.And(in_seq(c["nodes"], n), n != c["producer"].term), z3.Not(reads_name(ex, n, c["output_name"].term)))))
+
+    def inv_hnc_outer(lc):
+        ex = lc.ex
+        k = z3.Int("k")
+        n = sel(lc.seq.arrs[0], k)
+        return [("no_reader_among_the_nodes_so_far", z3.ForAll([k], z3.Implies(z3.And(0 <= k, k < lc.idx, n != lc["producer"].term), z3.Not(reads_name(ex, n, lc["output_name"].term)))))]
+
+    def inv_hnc_inner(lc):
+        ex = lc.ex
+        k = z3.Int("k")
+        x = sel(lc.seq.arrs[0], k)
+        isnone, xn = name_of(ex, x)
+        return [("no_input_so_far_carries_the_name", z3.ForAll([k], z3.Implies(z3.And(0 <= k, k < lc.idx), z3.Not(z3.And(x != null_of(VALUE), z3.Not(isnone), z3.Length(xn) > 0, xn == lc["output_name"].term)))))]
+
+    w.add_contract(Contract(
+        f"{MO}:_has_named_consumer", params={"nodes": Seq(Ref(NODE)), "producer": Ref(NODE), "output_name": Str}, ret=Bool, raises=set(),
+        requires=[("name_is_not_empty", lambda c: z3.Length(c["output_name"].term) > 0)],
+        ensures=[("false_only_if_no_other_node_reads_the_name", post_hnc)],
+        loops={0: LoopSpec(invariant=inv_hnc_outer, label="nodes"), 1: LoopSpec(invariant=inv_hnc_inner, label="inputs")}, props=["C02", "C03"],
+    ))
+
+    def wf15(ex, graph):
+        n, j = z3.Const("n!wf", N), z3.Int("j!wf")
+        outs = ex.heap_arrays(NODE, "outputs")
+        return [("every_node_output_carries_a_name", z3.ForAll([n, j], z3.Implies(z3.And(0 <= j, j < sel(outs[1], n)), named(ex, sel(sel(outs[0], n), j)))))]
+
+    def dead(ex, graph, nodes, n):
+        """no output of n is read by another node of the graph, listed as graph output or captured by a nested body"""
+        outs = ex.heap_arrays(NODE, "outputs")
+        j, m = z3.Int("j!dd"), z3.Const("m!dd", N)
+        o = sel(sel(outs[0], n), j)
+        return z3.ForAll([j], z3.Implies(z3.And(0 <= j, j < sel(outs[1], n)), z3.And(
+            z3.Not(observed_as_output(ex, graph, o)), z3.Not(nested_ref(o, hv(ex))),
+            z3.ForAll([m], z3.Implies(z3.And(in_seq(nodes, m), m != n), z3.Not(w.graph_reads(ex, m, o)))))))
+
+    def inv_collect(lc):
+        ex = lc.ex
+        tr, nodes, graph = lc["to_remove"], lc["nodes"], lc["graph"].term
+        k = z3.Int("k")
+        x = sel(tr.arrs[0], k)
+        return [("collected_nodes_are_dead_transposes", z3.ForAll([k], z3.Implies(z3.And(0 <= k, k < tr.length), z3.And(
+            sel(ex.heap_arrays(NODE, "op_type")[0], x) == z3.StringVal("Transpose"), dead(ex, graph, nodes, x)))))]
+
+    def inv_outs(lc):
+        ex = lc.ex
+        node, nodes, graph = lc["node"], lc["nodes"], lc["graph"].term
+        j, m = z3.Int("j"), z3.Const("m!io", N)
+        o = sel(lc.seq.arrs[0], j)
+        return [("not_live_so_far", z3.Not(ex.truthy(lc["is_live"]))),
+                ("outputs_so_far_are_unobserved", z3.ForAll([j], z3.Implies(z3.And(0 <= j, j < lc.idx), z3.And(
+                    z3.Not(observed_as_output(ex, graph, o)), z3.Not(nested_ref(o, hv(ex))),
+                    z3.ForAll([m], z3.Implies(z3.And(in_seq(nodes, m), m != node.term), z3.Not(w.graph_reads(ex, m, o))))))))]
+
+    def hook15(lc):
+        ex = lc.ex
+        graph = lc["graph"].term
+        if lc.phase == "assume":
+            ex.events[:] = [e for e in ex.events if not (e and e[0] == "mut")]
+            for f in structurally_valid(ex):
+                ex.pc.append(f)
+            return wf15(ex, graph)
+        E = muts(ex)
+        obl = wf15(ex, graph)
+        if lc.phase != "inv-step" or not E:
+            return obl
+        ok = [e[1] for e in E] == ["remove_many"] and isinstance(lc.get("to_remove"), VSeq) and isinstance(lc.get("nodes"), VSeq)
+        obl.append(("txn-effect:T15.events_are_one_removal", z3.BoolVal(ok)))
+        if not ok:
+            return obl
+        e = E[0]
+        P = Pre(ex, e[-3])
+        tr, nodes = lc["to_remove"], lc["nodes"]
+        removed = e[3]
+        k = z3.Int("k")
+        cur = ex.heap
+        ex.heap = dict(P.snap)
+        hv_now = ex.ghost.get("heap_version")
+        ex.ghost["heap_version"] = e[-2]["hv"]
+        try:
+            x = sel(tr.arrs[0], k)
+            gn = P.graph_nodes(graph)
+            facts = [("txn-effect:T15.the_collected_list_is_what_is_removed_from_this_graph", z3.And(z3.BoolVal(removed is tr or (isinstance(removed, VSeq) and removed.arrs[0].eq(tr.arrs[0]) and removed.length.eq(tr.length))), e[2].term == graph)),
+                     ("txn-facts:T15.every_removed_node_is_a_transpose_nobody_observes", z3.ForAll([k], z3.Implies(z3.And(0 <= k, k < tr.length), z3.And(
+                         sel(ex.heap_arrays(NODE, "op_type")[0], x) == z3.StringVal("Transpose"), dead(ex, graph, nodes, x))))),
+                     ("txn-facts:T15.consumer_scans_ranged_over_all_nodes_of_the_graph", z3.And(nodes.length == gn[1], z3.ForAll([k], z3.Implies(z3.And(0 <= k, k < nodes.length), sel(nodes.arrs[0], k) == sel(gn[0], k)))))]
+        finally:
+            for kk, vv in ex.heap.items():
+                cur.setdefault(kk, vv)
+            ex.heap = cur
+            ex.ghost["heap_version"] = hv_now
+        return obl + facts
+
+    w.add_contract(Contract(
+        f"{MO}:remove_orphan_transposes_ir", params={"graph": Ref(GRAPH)},
+        requires=[("valid_graph", lambda c: z3.And([f for _, f in wf15(c.ex, c["graph"].term)]))],
+        loops={0: LoopSpec(invariant=hook15, label="transactions"), 1: LoopSpec(invariant=inv_collect, heap_unchanged=True, label="collect"),
+               2: LoopSpec(invariant=inv_outs, heap_unchanged=True, label="outputs")},
+        local_types={"to_remove": Seq(Ref(NODE))},
+        track_alloc=True, deep_feasibility=True, ret=NoneT, props=["C02", "C03"], opaque_externals=True, witnesses=["D13"],
+        modifies=[(GRAPH, "nodes")],
+    ))
+    w.trust("removing a node none of whose outputs is read by a node, listed as a graph output or captured by a nested body changes no observable value (dead code)")
